@@ -452,19 +452,22 @@ class Scenario:
             if rec.stream is None and rec.task is None:
                 continue          # the open never reached the server
             reg, it, ic = self._flags(rec)
-            parts.append('%d.%d:%s:%d:%d:%d:%d:%d:%d' % (rec.c, rec.i, self._phase(rec), rec.ncancel, rec.nhit,
-                                                        rec.cleanup_done, reg, it, ic))
+            w = rec.stream is not None and rec.stream.wrapper is not None and rec.stream.wrapper._error is not None
+            parts.append('%d.%d:%s:%d:%d:%d:%d:%d:%d:%d' % (rec.c, rec.i, self._phase(rec), rec.ncancel, rec.nhit,
+                                                           rec.cleanup_done, reg, it, ic, w))
         self.ops.append('se')
         allfin = all(r.task is None or r.task.done() for r in self.order)
         alllost = all(tr.lost for _, tr, _ in self.conns)
         self.wait_log.append((allfin, alllost, self.wait_state()))
         self.snaps.append(','.join(parts) + ';W' + self.wait_state() + ';X' +
-                          ','.join(str(c) for c in sorted(self.crashed)) + ';E%d' % self.serr)
+                          ','.join(str(c) for c in sorted(self.crashed)) + ';E%d' % self.serr + ';H' +
+                          ','.join(str(c) for c, (proto, _, _) in enumerate(self.conns)
+                                   if proto.handler in self.server._handlers))
 
 
 def canon_model_snapshot(s):
     """model snapshot -> the implementation's vocabulary (drop the ghost `late`, merge waiter stages)"""
-    tasks, w, x, e = s.split(';')
+    tasks, w, x, e, h = s.split(';')
     out = []
     late_ok = True
     for t in tasks.split(','):
@@ -473,11 +476,11 @@ def canon_model_snapshot(s):
         f = t.split(':')
         if (f[8] == '1') != (f[3] != '0'):
             late_ok = False
-        out.append(':'.join(f[:8]))
+        out.append(':'.join(f[:8] + f[9:10]))
     ws = w[1:]
     if ws in ('latch', 'server', 'sub'):
         ws = 'pending'
-    return ','.join(out) + ';W' + ws + ';' + x + ';' + e, late_ok
+    return ','.join(out) + ';W' + ws + ';' + x + ';' + e + ';' + h, late_ok
 
 
 def collect(sc, loop):
